@@ -160,7 +160,7 @@ class Interp:
                 return ("seq", Lin.const(n), frozenset())
             s = "len:%s" % (key_str(key),)
             st.store.declare(s, 0, LEN_MAX)
-            return ("seq", Lin.sym(s), frozenset())
+            return ("seq", Lin.sym(s), frozenset(), ("entry", key_str(key)))
         fam = opt_family(t)
         if fam:
             return ("opt", None, None, fam)
@@ -226,7 +226,12 @@ class Interp:
                     if cur[1] is not None and cur[1] != want:
                         cur = TOP
                     else:
-                        cur = ("optp", cur[2])
+                        pay = cur[2]
+                        if pay is not None and pay[0] == "either":
+                            pay = pay[1] if want in ("Ok", "Some", "Continue") else pay[2]
+                        elif cur[1] is None and want in ("Err", "None", "Break"):
+                            pay = None      # the payload slot describes the positive variant only
+                        cur = ("optp", pay)
                 elif cur[0] == "optp" and comp == 0:
                     cur = cur[1] if cur[1] is not None else None
                     if cur is None:
@@ -261,7 +266,8 @@ class Interp:
             n = array_len(ty)
             if n is not None:
                 return ("seq", Lin.const(n), frozenset())
-            return ("seq", Lin.sym(self.newsym(st, "len", 0, LEN_MAX)), frozenset())
+            sy = self.newsym(st, "len", 0, LEN_MAX)
+            return ("seq", Lin.sym(sy), frozenset(), ("val", sy))
         fam = opt_family(ty)
         if fam:
             return ("opt", None, None, fam)
@@ -316,7 +322,7 @@ class Interp:
                 return ("int", Lin.const(o["val"]))
             if "str" in o:
                 s = o["str"]
-                return ("seq", Lin.const(len(s.encode())), frozenset(["ascii"] if all(ord(c) < 128 for c in s) else []), s)
+                return ("seq", Lin.const(len(s.encode())), frozenset(["ascii"] if all(ord(c) < 128 for c in s) else []), ("const", s))
             if "pinit" in o:
                 return self.promoted(st, o)
             n = array_len(ty)
@@ -563,11 +569,13 @@ class Interp:
                 self.assume(st, cond[1], True)
             return
         if k == "bnd":
+            # ("bnd", ident, lo, hi): every position in [lo, hi] of the string `ident` is a char boundary
             if val:
-                _k, key, lin = cond
-                bk = ("bnd",) + key
-                cur = st.env.get(bk, ("bnds", frozenset()))[1]
-                st.env[bk] = ("bnds", cur | frozenset([lin]))
+                add_cb(st, cond[1], cond[2], cond[3])
+            return
+        if k == "txt":
+            if val:
+                add_ct(st, cond[1], cond[2], cond[3])
             return
         if k == "tag":
             _k, key, fam, names = cond
@@ -579,7 +587,7 @@ class Interp:
                         if cur[1] is not None and cur[1] != nm:
                             st.store.bottom = True
                             return
-                        st.env[key] = ("opt", nm, cur[2], cur[3])
+                        st.env[key] = ("opt", nm, _payload_for(cur, nm), cur[3])
                     else:
                         st.env[key] = ("opt", nm, None, fam)
             else:
@@ -588,7 +596,7 @@ class Interp:
                 elif len(names) == 1 and fam in FAM_VARIANTS:
                     other = [v for v in FAM_VARIANTS[fam].values() if v not in names]
                     if len(other) == 1:
-                        pay = cur[2] if cur is not None and cur[0] == "opt" else None
+                        pay = _payload_for(cur, other[0]) if cur is not None and cur[0] == "opt" else None
                         st.env[key] = ("opt", other[0], pay, fam)
             return
 
@@ -645,6 +653,97 @@ class Interp:
         for l in lins:
             if l is not None:
                 st.store.add(l)
+
+
+def _payload_for(cur, tag):
+    """payload of an Option/Result value once its variant is known: a value whose tag was unknown carries the
+    payload of the positive variant only (or an explicit ("either", positive, negative) pair)"""
+    pay = cur[2]
+    positive = tag in ("Ok", "Some", "Continue")
+    if pay is not None and pay[0] == "either":
+        return pay[1] if positive else pay[2]
+    if cur[1] is None and not positive:
+        return None
+    return pay
+
+
+CB_KEY = ("cb", 0, ())
+CT_KEY = ("ct", 0, ())
+
+
+def ct_facts(st):
+    v = st.env.get(CT_KEY)
+    return v[1] if v is not None and v[0] == "cts" else frozenset()
+
+
+def add_ct(st, ident, pos, text):
+    """the string `ident` contains `text` at byte position pos"""
+    if ident is None or pos is None or not text:
+        return
+    st.env[CT_KEY] = ("cts", ct_facts(st) | frozenset([(ident, pos, text)]))
+
+
+def text_at_start(st, seq):
+    """texts known to start the str value seq (through a sub-slice taken at a known match position)"""
+    out = []
+    ident = seq_ident(seq)
+    if ident is None:
+        return out
+    for (i, pos, text) in ct_facts(st):
+        if i == ident and pos.is_const() and pos.c == 0:
+            out.append(text)
+        if ident[0] == "sub" and i == ident[1] and (pos == ident[2] or st.store.entails_eq(pos.sub(ident[2]))):
+            out.append(text)
+    return out
+
+
+def seq_ident(v):
+    return v[3] if isinstance(v, tuple) and len(v) > 3 and v[0] == "seq" else None
+
+
+def cb_facts(st):
+    v = st.env.get(CB_KEY)
+    return v[1] if v is not None and v[0] == "cbs" else frozenset()
+
+
+def add_cb(st, ident, lo, hi=None):
+    """positions lo..=hi of the string identified by `ident` are char boundaries; a boundary of a sub-slice that
+    starts at X is a boundary of the parent at X + position"""
+    if ident is None or lo is None:
+        return
+    hi = lo if hi is None else hi
+    facts = set(cb_facts(st))
+    while True:
+        facts.add((ident, lo, hi))
+        if ident[0] == "sub":
+            _tag, parent, start = ident
+            ident, lo, hi = parent, start.add(lo), start.add(hi)
+            continue
+        break
+    st.env[CB_KEY] = ("cbs", frozenset(facts))
+
+
+def is_cb(st, seq, pos):
+    """is `pos` provably a char boundary of the str value `seq`"""
+    if pos is None:
+        return False
+    if "ascii" in seq[2]:
+        return True
+    if pos.is_const() and pos.c == 0:
+        return True
+    if st.store.entails_eq(pos.sub(seq[1])):
+        return True
+    ident = seq_ident(seq)
+    if ident is None:
+        return False
+    for (i, lo, hi) in cb_facts(st):
+        if i != ident:
+            continue
+        if lo == pos or hi == pos:
+            return True
+        if st.store.entails(lo.sub(pos)) and st.store.entails(pos.sub(hi)):
+            return True
+    return False
 
 
 def _mentions(v, s):
